@@ -57,6 +57,9 @@ def missing_values_discipline(ctx: Ctx, rule: str):
                         ctx.check(bool(stores), rule, key + "::break", "early exit only after the store", "missing_values breaks before the requested value is stored", f.where(l))
                 elif req:
                     ctx.check(not stores and not incs, rule, key, "not requested: nothing stored, counter untouched", f"missing_values path [{p.pred()}]: stores or counts a name that was not requested", f.where(l))
+                elif stores:
+                    # a store that does not depend on `<atom>.name in values` itself: some other set decides what is exported
+                    ctx.fail(rule, key, f"missing_values path [{p.pred()}]: a value is stored although the path does not test `{v}.name in {vparam}`: what is exported is decided by another collection, so a requested name outside it (a state derivative, say) keeps the 0 of the freshly allocated array", f.where(l))
         brk = [n for n in ast.walk(l2) if isinstance(n, ast.If) and any(isinstance(s, ast.Break) for s in n.body)]
         okb = False
         bound_txt = None
@@ -216,6 +219,13 @@ def run(ctx: Ctx):
     else:
         comps = dict(oc[0][3]).get("components", oc[0][2][0] if oc[0][2] else None)
         ctx.check(comps == ("list", (("sym", "self"),)), "R13.d", to.key(), "ODE(components=(self,))", f"BaseComponent.to_ode builds the model from {_avd13.show(comps) if comps else None}, not from exactly this component", to.where())
+
+    ctx.rule("R13.f", "a sub-model goes through the same builders and entry points as a full model: the hybrid scheme decides stiffness by the state's own name in the given list (R07.a), and get_code builds one generator of the requested backend for every function, missing_values included (R18.a)", floor=20)
+    from .c07 import hybrid_table
+    from .c18 import check_get_code
+
+    hybrid_table(ctx, "R13.f", declare=False)
+    check_get_code(ctx, "R13.f", "cli/gotran2py.py")
 
     ctx.rule("R13.e", "the jax method template returns the slots _values_0.._values_{n-1} in slot order (missing_values stores its slots in emission order, not slot order)", floor=5)
     from .c03 import jax_template
